@@ -407,7 +407,7 @@ func runFilterPart(t *testing.T, part string, n int) {
 // unsafe cache-line / bit-packing accesses); the binary fuse builder's large
 // pooled buffers make it slow there, so the volume part below repeats the same
 // monitor under the invariants build.
-func TestVerifC26(t *testing.T) { runFilterPart(t, "main", vcommon.Scale(150, 8000)) }
+func TestVerifC26(t *testing.T) { runFilterPart(t, "main", vcommon.Scale(150, 6000)) }
 
 // TestVerifC26Bulk is the same monitor at volume (invariants build).
 func TestVerifC26Bulk(t *testing.T) { runFilterPart(t, "bulk", vcommon.Scale(2000, 100000)) }
@@ -517,7 +517,7 @@ func TestVerifC26Tables(t *testing.T) {
 	defer r.Finish(t)
 	r.Rule("each case = one random table with a filter policy (bloom / adaptive bloom / binary fuse, all table formats) read with AlwaysUseFilterBlock; " +
 		"SeekPrefixGE for (up to 400) existing keys and bare prefixes must return the first matching entry; distinct = (policy, format, entries), tables without a filter block are trivial")
-	n := vcommon.Scale(36, 1200)
+	n := vcommon.Scale(36, 900)
 	r.Cases(n, func(i int, rng *rand.Rand) {
 		if msg, stack := sstmodel.Guard(func() { runTableCase(r, i, rng) }); msg != "" {
 			r.Violate("panic", "panic: "+msg, map[string]any{"case": i, "panic": msg, "stack": stack}, map[string]any{"message": msg})
